@@ -3,6 +3,7 @@ package c02
 
 import (
 	"errors"
+	"fmt"
 	"testing"
 
 	"pdverif/tsofix"
@@ -69,4 +70,110 @@ func TestFinding_LostAckStaleWindow(t *testing.T) {
 			{K: "campaign"}, {K: "gen", Count: 1}, {K: "fail", Fail: "lostack"}, {K: "settso", Rel: "edge"},
 			{K: "clockall", D: 4}, {K: "update"}, {K: "gen", Count: 1},
 		}})
+}
+
+// ---- fault and crash-point enumeration ------------------------------------------------
+//
+// A generated sequential history is executed clean, then once per write txn index with that
+// write failing (not applied; and, unless excluded by the known finding, applied-but-reported-
+// failed), and once per crash point (after every op) with every member stopped and a member
+// with a drawn clock offset taking over and granting. Oracle: I1, I2 and I4 on every execution.
+
+type EnumCase struct {
+	Base     tsofix.Case `json:"base"`
+	Takeover int         `json:"takeover"`   // member that takes over at the crash points
+	Offsets  []int64     `json:"offsets_ms"` // clock offsets tried for the successor
+}
+
+func init() {
+	vkit.Register("enum", vkit.N{Quick: 80, Thorough: 4000}, func(t *rapid.T) EnumCase {
+		c := EnumCase{Base: tsofix.GenCase(t, "enum")}
+		c.Takeover = vkit.Uni(t, c.Base.Cfg.Members, "takeover")
+		all := []int64{-3600_000, -c.Base.Cfg.SaveMs - 1, -1, 0, 1, 3600_000}
+		c.Offsets = []int64{vkit.PickU(t, all, "off1"), vkit.PickU(t, all, "off2")}
+		return c
+	}, runEnum)
+}
+
+func firstC02(viol []tsofix.Violation) error {
+	for _, v := range viol {
+		if v.Prop == "C02" {
+			return errors.New(v.Msg)
+		}
+	}
+	return nil
+}
+
+func runEnum(c EnumCase) (vkit.Info, error) {
+	info, viol, st := tsofix.RunX(c.Base, "C02")
+	if info.Inconclusive {
+		return info, nil
+	}
+	if err := firstC02(viol); err != nil {
+		return info, fmt.Errorf("clean execution: %v", err)
+	}
+	runs := 1
+	// (a) every write fails once
+	limit := st.Writes
+	if limit > 40 {
+		limit = 40
+	}
+	kinds := []string{"before", "lostack"}
+	for j := 1; j <= limit; j++ {
+		for _, k := range kinds {
+			b := c.Base
+			b.Cfg.FaultAt, b.Cfg.FaultKind = j, k
+			i2, v2, _ := tsofix.RunX(b, "C02")
+			runs++
+			info.Excluded = append(info.Excluded, i2.Excluded...)
+			if i2.Inconclusive {
+				continue
+			}
+			if err := firstC02(v2); err != nil {
+				return info, fmt.Errorf("with write txn %d of %d failing (%s): %v", j, st.Writes, k, err)
+			}
+		}
+	}
+	// (b) crash after every op, successor with a drawn clock offset takes over and grants
+	n := c.Base.Cfg.Members
+	for p := 0; p <= len(c.Base.Ops); p++ {
+		for _, off := range c.Offsets {
+			b := c.Base
+			b.Ops = append([]tsofix.Op(nil), c.Base.Ops[:p]...)
+			for m := 0; m < n; m++ {
+				b.Ops = append(b.Ops, tsofix.Op{K: "crash", M: m})
+			}
+			b.Ops = append(b.Ops, tsofix.Op{K: "restart", M: c.Takeover, D: off},
+				tsofix.Op{K: "campaign", M: c.Takeover}, tsofix.Op{K: "gen", M: c.Takeover, Count: 1},
+				tsofix.Op{K: "clockall", D: 2}, tsofix.Op{K: "update", M: c.Takeover}, tsofix.Op{K: "gen", M: c.Takeover, Count: 10})
+			i3, v3, _ := tsofix.RunX(b, "C02")
+			runs++
+			if i3.Inconclusive {
+				continue
+			}
+			if err := firstC02(v3); err != nil {
+				return info, fmt.Errorf("crash after op %d of %d, member %d takes over with clock offset %d ms: %v", p, len(c.Base.Ops), c.Takeover, off, err)
+			}
+		}
+	}
+	info.Classes = append(info.Classes, fmt.Sprintf("writes=%d", bucket(st.Writes)), fmt.Sprintf("executions=%d", bucket(runs)))
+	info.ClassIf(st.Writes > 40, "fault-points-capped-at-40")
+	info.NonTrivial = st.Writes >= 2 && st.Grants >= 2
+	return info, nil
+}
+
+func bucket(n int) int {
+	switch {
+	case n < 5:
+		return n
+	case n < 10:
+		return 5
+	case n < 20:
+		return 10
+	case n < 40:
+		return 20
+	case n < 80:
+		return 40
+	}
+	return 80
 }
